@@ -318,7 +318,7 @@ impl Runner {
                         continue;
                     }
                     // the placeholder of an uninstantiated function template has no body of its own
-                    if !m.function_registry.get_function_signature(id).template_params.is_empty() {
+                    if !m.function_registry.get_function_signature(id).template_params.is_empty() && m.function_registry.get_template_instantiation_data(id).is_none() {
                         continue;
                     }
                     if let Some(imp) = m.function_registry.get_function_implementation(id) {
